@@ -827,3 +827,31 @@ M("C20.nostd_slot_claims_enabled", ["C20"], "core/src/runtime.rs",
         */
         pub fn get(&self) -> &AmbientRuntime {
             const EMPTY""", "C20.K2a.R3", tier="thorough")
+
+# ---- reverse patch of fix 3e65fcb (D16) and hand mutants for the C11 rules added in round 2 ------------------
+M("C11.rev_fix_empty_set_directory", ["C11"], "emitter/file/src/lib.rs",
+  """    let dir = if dir.is_empty() {
+        String::from(".")
+    } else {
+        dir
+    };
+""", "", "C11.R6")
+M("C11.retention_bound_is_max_files", ["C11"], "emitter/file/src/lib.rs",
+  "file_set.apply_retention(&self.fs, self.max_files.saturating_sub(1));",
+  "file_set.apply_retention(&self.fs, self.max_files);", "C11.R7:retention-bound")
+M("C11.retention_strictly_over", ["C11"], "emitter/file/src/lib.rs",
+  "while self.file_set.len() >= max_files {", "while self.file_set.len() > max_files {", "C11.R7:retention-loop")
+M("C11.counter_from_other_reading", ["C11"], "emitter/file/src/lib.rs",
+  "rolling_millis(self.roll_by, ts, parts),", "rolling_millis(self.roll_by, self.clock.now().unwrap(), parts),", "C11.R8:one-reading")
+M("C11.hour_period_truncates_to_day", ["C11"], "emitter/file/src/lib.rs",
+  """            days: parts.days,
+            hours: parts.hours,
+            ..Default::default()
+        })
+        .unwrap(),
+        RollBy::Minute""",
+  """            days: parts.days,
+            ..Default::default()
+        })
+        .unwrap(),
+        RollBy::Minute""", "C11.R8:counter-monotone")
